@@ -1,25 +1,59 @@
 import TeaTasting.Driver.Proto
 import TeaTasting.Driver.Stubs
 import TeaTasting.Spec.Sample
+import TeaTasting.Spec.Fast
 
 /-! Driver for the SPECIFICATION side (`Spec/*.lean`) at `ℚ`; imports nothing generated, so it
-keeps working when the regenerated model does not compile. -/
+keeps working when the regenerated model does not compile.  It evaluates the `…Exec` forms of
+`Spec/Fast.lean`, each PROVED equal to the readable specification. -/
 
 open Proto Spec
+
+def opts : P (Opts ℚ) := do
+  let alt ← str
+  let cl ← rat
+  let ev ← bool
+  let ut ← bool
+  pure { alternative := alt, confidence_level := cl, equal_var := ev, use_t := ut }
 
 def handler (cmd : String) : P String := do
   match cmd with
   | "aggrof" =>
     let names ← list str
     let t ← table
-    pure (showAggr names (aggrOf t tcol))
+    pure (showAggr names (aggrOfExec t tcol))
   | "lin_cov" =>
     let t ← table
     let a ← optStr
     let b ← optStr
     let c ← optStr
     let d ← optStr
-    pure (showRat (scov t (lin t (colO tcol a) (colO tcol b)) (lin t (colO tcol c) (colO tcol d))))
+    pure (showRat (linCovExec t (colO tcol a) (colO tcol b) (colO tcol c) (colO tcol d)))
+  | "cuped" =>
+    let fam ← nat
+    let o ← opts
+    let numer ← str
+    let denom ← optStr
+    let ncov ← optStr
+    let dcov ← optStr
+    let tc ← table
+    let tt ← table
+    pure (showResult (cupedTestExec (Stubs.family fam) o ⟨numer, denom, ncov, dcov⟩ tcol tc tt))
+  | "twosample" =>
+    let fam ← nat
+    let o ← opts
+    let tc ← table
+    let cc ← str
+    let tt ← table
+    let ct ← str
+    pure (showResult (twoSampleExec (Stubs.family fam) o tc (tcol cc) tt (tcol ct)))
+  | "from_stats" =>
+    let fam ← nat
+    let o ← opts
+    let xs ← many 6 rat
+    match xs with
+    | [m1, v1, n1, m2, v2, n2] => pure (showResult (testFromStats (Stubs.family fam) o m1 v1 n1 m2 v2 n2))
+    | _ => throw "from_stats args"
   | _ => throw s!"unknown command {cmd}"
 
 def main : IO Unit := do loop handler (← IO.getStdin)
